@@ -116,6 +116,11 @@ def resolve(doc: Any, ref: str) -> Tuple[bool, Any]:
     return True, cur
 
 
+def endpoint_path(path: str, prefix: str) -> str:
+    """the harness' own notion of 'endpoint path': base path, joined with the endpoint prefix by exactly one slash"""
+    return path if not prefix else path.rstrip('/') + '/' + prefix.lstrip('/')
+
+
 def closure(doc: Any, entry: Any) -> Dict[str, Any]:
     """the components reachable from an entry through $ref"""
     seen: Dict[str, Any] = {}
@@ -188,7 +193,7 @@ class C16(Check):
             'methods': st.lists(s_method, min_size=1, max_size=4), 'endpoints': st.sampled_from([1, 1, 2]), 'generations': st.sampled_from([1, 2, 2, 3]),
             'spec_opts': st.fixed_dictionaries({'servers': s_bool, 'tags': s_bool, 'security': s_bool, 'external_docs': s_bool,
                                                 'status_map': st.sampled_from([None, None, {'2001': 404, '-32601': 404}, {'2002': 409, '-32602': 422, '2001': 404}])}),
-            'path': st.sampled_from(['/api', '/', '/api/v1', '']),
+            'path': st.sampled_from(['/api', '/', '/api/v1', '/api', '/', '/api/v1', '/rpc/', '']),
         })
 
     def corpus(self):
@@ -369,8 +374,7 @@ class C16(Check):
             found = [m for m in doc.get('methods', []) if m.get('name') == b['exposed']]
             return (found[0] if found else None), len(found)
         pfx = ['', '/sub'][b['endpoint']]
-        from pjrpc.server import utils
-        key = f"{utils.join_path(spec['path'], pfx)}#{b['exposed']}"
+        key = f"{endpoint_path(spec['path'], pfx)}#{b['exposed']}"
         return doc.get('paths', {}).get(key), 1 if key in doc.get('paths', {}) else 0
 
     def run_case(self, spec: Any) -> Outcome:
@@ -423,8 +427,7 @@ class C16(Check):
                 else:
                     want_keys = set()
                     for b in built:
-                        from pjrpc.server import utils
-                        want_keys.add(f"{utils.join_path(spec['path'], ['', '/sub'][b['endpoint']])}#{b['exposed']}")
+                        want_keys.add(f"{endpoint_path(spec['path'], ['', '/sub'][b['endpoint']])}#{b['exposed']}")
                     bad = [k for k in plain.get('paths', {}) if not k.startswith('/')]
                     if bad:
                         # the official meta-schemas only allow path keys matching ^/ (3.1 expresses it with unevaluatedProperties,
